@@ -212,6 +212,10 @@ func (n *networkTopology) replicaMap(tokenRing *tokenRing) tokenRingReplicas {
 		totalRF += rf
 	}
 
+	// hosts already considered for the current token: with vnodes a host owns
+	// several tokens but must be considered only once per replica set
+	seenHosts := make(map[*HostInfo]struct{}, len(tokenRing.hosts))
+
 	for i, th := range tokenRing.tokens {
 		if rf := n.dcs[th.host.DataCenter()]; rf == 0 {
 			// skip this token since no replica in this datacenter.
@@ -229,14 +233,23 @@ func (n *networkTopology) replicaMap(tokenRing *tokenRing) tokenRingReplicas {
 			}
 		}
 
+		for h := range seenHosts {
+			delete(seenHosts, h)
+		}
+
 		replicas := make([]*HostInfo, 0, totalRF)
 		for j := 0; j < len(tokens) && (len(replicas) < totalRF && !n.haveRF(replicasInDC)); j++ {
-			// TODO: ensure we dont add the same host twice
 			p := i + j
 			if p >= len(tokens) {
 				p -= len(tokens)
 			}
 			h := tokens[p].host
+
+			if _, ok := seenHosts[h]; ok {
+				// another token of a host we have already been through
+				continue
+			}
+			seenHosts[h] = struct{}{}
 
 			dc := h.DataCenter()
 			rack := h.Rack()
